@@ -9,14 +9,14 @@ git checkout -q -- vc2_conformance
 git apply /tmp/confirm_$$.diff || exit 2
 /venv/bin/python demo.py > /tmp/confirm_$$.mut 2>&1; RC_MUT=$?
 /venv/bin/python -m pytest -q -p no:cacheprovider --timeout=900 tests --junitxml=/tmp/confirm_$$.xml > /tmp/confirm_$$.pytest 2>&1
-/venv/bin/python - "$OUT" $RC_CLEAN $RC_MUT /tmp/confirm_$$.xml <<'PY'
+/venv/bin/python - "$OUT" $RC_CLEAN $RC_MUT /tmp/confirm_$$.xml "$WT" <<'PY'
 import sys, json, xml.etree.ElementTree as ET
-out, rc_clean, rc_mut, xml = sys.argv[1], int(sys.argv[2]), int(sys.argv[3]), sys.argv[4]
+out, rc_clean, rc_mut, xml, wt = sys.argv[1], int(sys.argv[2]), int(sys.argv[3]), sys.argv[4], sys.argv[5]
 base = set(json.load(open('/root/.vp/BASELINE.json'))['stable_pass'])
 passed = set()
 for tc in ET.parse(xml).getroot().iter('testcase'):
     if not any(c.tag in ('failure', 'error', 'skipped') for c in tc):
-        passed.add(tc.get('classname') + '::' + tc.get('name'))
+        passed.add((tc.get('classname') + '::' + tc.get('name')).replace(wt, '/repo'))
 missing = sorted(base - passed)
 json.dump({'demo_rc_clean': rc_clean, 'demo_rc_mutated': rc_mut, 'stable_pass_still_passing': len(base & passed),
            'stable_pass_missing': missing[:10], 'n_missing': len(missing)}, open(out, 'w'), indent=1)
